@@ -1,4 +1,5 @@
 import GufoSnmp.Props.C04
+import GufoSnmp.Model.PyClient
 /-!
 # C13 — engine discovery and time sync follow the agent
 
@@ -215,5 +216,54 @@ theorem refresh_flow (D : Digests) (C : Ciphers) (s : V3Session) (m : V3Msg) (pd
   have := set_keys D (nextState C s m) user aa ak pa pk seed
   rw [he] at this
   exact ⟨(this.2.2 auth priv hk).1, this.1⟩
+
+/-! ## `refresh()` in the Python clients -/
+
+/-- **C13.deferred_kept**: a discovery probe that is not answered leaves the session exactly as it was:
+the deferred user is still there for the next attempt -/
+theorem deferred_kept (st : Py.RefreshState) (rest : List Bool) (hd : st.deferred = true) (hv : st.isV3 = true)
+    (ht : st.toRefresh = true) :
+    (Py.refresh st (false :: rest)).2.2.1 = st ∧ (Py.refresh st (false :: rest)).2.1 = true ∧
+    (Py.refresh st []).2.2.1 = st := by
+  simp [Py.refresh, hd, hv, ht]
+
+/-- **C13.keys_after_discovery**: `set_keys` happens exactly when a deferred session's probe was
+answered, immediately after it, and the session is then no longer deferred -/
+theorem keys_after_discovery (st : Py.RefreshState) (outcomes : List Bool) :
+    (Py.Act.setKeys ∈ (Py.refresh st outcomes).1 ↔
+      (st.isV3 = true ∧ st.toRefresh = true ∧ st.deferred = true ∧ outcomes.head? = some true)) ∧
+    (Py.Act.setKeys ∈ (Py.refresh st outcomes).1 → (Py.refresh st outcomes).2.2.1.deferred = false ∧
+      ∃ tail, (Py.refresh st outcomes).1 = Py.Act.probe true :: Py.Act.setKeys :: tail) := by
+  unfold Py.refresh
+  cases hv : st.isV3 <;> cases ht : st.toRefresh <;> cases hd : st.deferred <;> simp
+  all_goals (cases outcomes with
+    | nil => simp
+    | cons o rest =>
+      cases o <;> simp
+      all_goals (try (cases rest with
+        | nil => simp
+        | cons o2 rest2 => cases o2 <;> simp)))
+
+/-- a session created with its engine id never defers and never calls `set_keys` -/
+theorem configured_never_sets_keys (requireAuth : Bool) (n : Nat) (outcomes : List Bool) :
+    ∀ r ∈ (Py.refreshes n (Py.RefreshState.init true requireAuth) outcomes).1, Py.Act.setKeys ∉ r.1 := by
+  have hgen : ∀ (n : Nat) (st : Py.RefreshState) (outcomes : List Bool), st.deferred = false →
+      ∀ r ∈ (Py.refreshes n st outcomes).1, Py.Act.setKeys ∉ r.1 := by
+    intro n
+    induction n with
+    | zero => intro st o _ r hr; simp [Py.refreshes] at hr
+    | succ n ih =>
+      intro st o hd r hr
+      simp only [Py.refreshes, List.mem_cons] at hr
+      have hstep : (Py.refresh st o).2.2.1.deferred = false ∧ Py.Act.setKeys ∉ (Py.refresh st o).1 := by
+        unfold Py.refresh
+        cases hv : st.isV3 <;> cases ht : st.toRefresh <;> simp [hd]
+        all_goals (cases o with
+          | nil => simp [hd]
+          | cons x xs => cases x <;> simp [hd])
+      rcases hr with rfl | hr
+      · exact hstep.2
+      · exact ih _ _ hstep.1 r hr
+  exact hgen n _ outcomes (by simp [Py.RefreshState.init])
 
 end GufoSnmp.C13
